@@ -62,7 +62,24 @@ fn run_on<C: DateRoll>(ctx: &mut Ctx, cal: &C, spec: &CalSpec, dates: &[i64], rn
     }
     let lo = *dates.iter().min().unwrap() - PAD;
     let hi = *dates.iter().max().unwrap() + PAD;
-    let bits = CalBits::build(cal, lo, hi);
+    // eligibility comes from the calendar's DESCRIPTION (week mask, holiday list, members, settlement members),
+    // not from the object under test: a wrong predicate of the object shows here before any date is adjusted
+    let bits = match CalBits::from_spec(spec, lo, hi) {
+        Some(b) => b,
+        None => {
+            ctx.harness_error("calendar description does not resolve".into());
+            return;
+        }
+    };
+    ctx.asserted(2 * (hi - lo + 1) as u64);
+    if let Some((z, which)) = bits.first_difference(&CalBits::build(cal, lo, hi)) {
+        ctx.violation(
+            &format!("C04|eligible-days-differ-from-definition|{}|{}", which, spec.kind()),
+            json!({"calendar": spec.describe(), "date": fmt_z(z), "predicate": which, "object_says": if which == "is_bus_day" { cal.is_bus_day(&to_ndt(z)) } else { cal.is_settlement(&to_ndt(z)) },
+                   "definition": "business day in every member; settlement day = business day in every settlement member (always if none)"}),
+        );
+        return;
+    }
     let probe = Probe::new(cal, PROBE_BUDGET);
     let kind = spec.kind();
     for &z in dates {
@@ -210,7 +227,7 @@ impl Prop for C04 {
         tier.pick(1_000_000, 20_000_000)
     }
     fn rule(&self) -> String {
-        "Calendars: the 14 built-ins, named combination strings (',' and '|', mixed case), seeded random Cal objects (any week mask leaving a working day, hostile holiday sets: closures chained over month/year ends, up to 45 days) and UnionCals of 1-3 members with 0-2 settlement calendars. Dates: quick = month-end +-3 days of every month 1970-2200 for built-ins, every date of a 3-year window for the others; thorough = every date 1970-2200 for built-ins and 30 named combinations, 6-year windows for 600 random calendars. Every date x 5 modifiers x both settlement flags; half of the calls run through a probing proxy calendar with a 10^6 probe budget. Oracle: linear scans over a bus/settle bit-vector with own civil arithmetic. distinct_nontrivial = distinct (calendar, date, modifier, flag) whose result moved.".into()
+        "Calendars: the 14 built-ins, named combination strings (',' and '|', mixed case), seeded random Cal objects (any week mask leaving a working day, hostile holiday sets: closures chained over month/year ends, up to 45 days) and UnionCals of 1-3 members with 0-2 settlement calendars. Dates: quick = month-end +-3 days of every month 1970-2200 for built-ins, every date of a 3-year window for the others; thorough = every date 1970-2200 for built-ins and 30 named combinations, 6-year windows for 600 random calendars. Every date x 5 modifiers x both settlement flags; half of the calls run through a probing proxy calendar with a 10^6 probe budget. Oracle: linear scans over a bus/settle bit-vector with own civil arithmetic. distinct_nontrivial = distinct (calendar, date, modifier, flag) whose result moved. Eligible days (business / settlement) are derived from each calendar's description - week mask, holiday list, members and settlement members - and the object's own predicates must agree with that before any result is judged; one calendar in four is exercised inside the CalType container.".into()
     }
     fn assumptions(&self) -> Vec<String> {
         vec![
